@@ -871,6 +871,80 @@ def m_builder_reset(ex, args, guard, pos):
     return None, guard
 
 
+# ---------------------------------------------------------------- sync.Map as a linearizable map[any]any
+def _syncmap(ex, recv):
+    tid = "map[any]any"
+    if tid not in ex.prog.types:
+        ex.prog.types[tid] = {"kind": "map", "key": "any", "elem": "any"}
+    alts = []
+    for g, r in recv.alts:
+        if r is None:
+            continue
+        k = r.key()
+        sm = ex.__dict__.setdefault("syncmaps", {})
+        o = sm.get(k)
+        if o is None:
+            c = getattr(ex, "conc", None)
+            rec = None
+            if c is not None:
+                rec, c.recording = c.recording, None
+            try:
+                o = ex.alloc("map", tid, MapVal([]), site="sync.Map%s" % (k,))
+            finally:
+                if c is not None:
+                    c.recording = rec
+            if c is not None:
+                c.shared_ids.add(o.id)
+            sm[k] = o
+        alts.append((g, Ref(o.id)))
+    return Ptr(alts)
+
+
+def _syncmap_visible(ex, guard, pos, what):
+    c = getattr(ex, "conc", None)
+    if c is not None and c.recording is not None:
+        c.add_event(guard, lambda active: None, "sync.Map." + what, pos, visible=True)
+        if c.switch_all:
+            ex.note("assumption", "sync.Map.%s is split into steps under switch_on=all" % what)
+
+
+def m_syncmap_load(ex, args, guard, pos):
+    m = _syncmap(ex, args[0])
+    _syncmap_visible(ex, guard, pos, "Load")
+    v, found = ex.map_lookup(m, args[1], guard, "any")
+    return TupleV([v, found]), guard
+
+
+def m_syncmap_store(ex, args, guard, pos):
+    m = _syncmap(ex, args[0])
+    _syncmap_visible(ex, guard, pos, "Store")
+    ex.map_update(None, m, args[1], args[2], guard, pos, None)
+    return None, guard
+
+
+def m_syncmap_load_or_store(ex, args, guard, pos):
+    m = _syncmap(ex, args[0])
+    _syncmap_visible(ex, guard, pos, "LoadOrStore")
+    v, found = ex.map_lookup(m, args[1], guard, "any")
+    ex.map_update(None, m, args[1], args[2], b_and(guard, b_not(found)), pos, None)
+    return TupleV([ex.ite(found, v, args[2], "any"), found]), guard
+
+
+def m_syncmap_delete(ex, args, guard, pos):
+    m = _syncmap(ex, args[0])
+    _syncmap_visible(ex, guard, pos, "Delete")
+    ex.map_delete(m, args[1], guard)
+    return None, guard
+
+
+def m_syncmap_load_and_delete(ex, args, guard, pos):
+    m = _syncmap(ex, args[0])
+    _syncmap_visible(ex, guard, pos, "LoadAndDelete")
+    v, found = ex.map_lookup(m, args[1], guard, "any")
+    ex.map_delete(m, args[1], guard)
+    return TupleV([v, found]), guard
+
+
 def m_unsupported(name):
     def h(ex, args, guard, pos):
         raise Unsupported("no model for " + name)
@@ -1034,6 +1108,11 @@ def install(ex):
     if "sync.Pool" in ex.prog.types:
         M["(*sync.Pool).Get"] = m_pool_get
         M["(*sync.Pool).Put"] = m_pool_put
+    M["(*sync.Map).Load"] = m_syncmap_load
+    M["(*sync.Map).Store"] = m_syncmap_store
+    M["(*sync.Map).LoadOrStore"] = m_syncmap_load_or_store
+    M["(*sync.Map).Delete"] = m_syncmap_delete
+    M["(*sync.Map).LoadAndDelete"] = m_syncmap_load_and_delete
     M["strings.IndexByte"] = m_strings_index_byte
     M["strings.Index"] = m_strings_index
     M["strings.LastIndex"] = m_strings_last_index
